@@ -280,6 +280,10 @@ enum Field {
     Str(Vec<u8>),
     Data(Vec<u8>),
     Raw(Vec<u8>),
+    /// `write_uuid` / `read_uuid`: sixteen raw bytes
+    Uuid([u8; 16]),
+    /// `write_rest` / `read_rest`: everything up to the end (read back only as the last field)
+    Rest(Vec<u8>),
 }
 
 fn alphabet() -> Vec<Field> {
@@ -296,6 +300,8 @@ fn alphabet() -> Vec<Field> {
     for r in [&[][..], &[0xff]] {
         v.push(Field::Raw(r.to_vec()));
     }
+    v.push(Field::Uuid([0x80, 0, 0xff, 1, 2, 3, 4, 5, 6, 7, 8, 9, 10, 11, 12, 0x40]));
+    v.push(Field::Rest(vec![0x80, 0, 0xff]));
     v
 }
 
@@ -317,6 +323,8 @@ fn expected_bytes(seq: &[&Field]) -> Vec<u8> {
                 out.extend_from_slice(d);
             }
             Field::Raw(r) => out.extend_from_slice(r),
+            Field::Uuid(u) => out.extend_from_slice(u),
+            Field::Rest(r) => out.extend_from_slice(r),
         }
     }
     out
@@ -329,6 +337,8 @@ fn write_seq(p: &mut libtw2_packer::Packer, seq: &[&Field]) -> Result<(), usize>
             Field::Str(s) => p.write_string(s),
             Field::Data(d) => p.write_data(d),
             Field::Raw(r) => p.write_raw(r),
+            Field::Uuid(u) => p.write_uuid(uuid::Uuid::from_bytes(*u)),
+            Field::Rest(r) => p.write_rest(r),
         };
         if r.is_err() {
             return Err(i);
@@ -371,6 +381,8 @@ fn check_sequence_caps(seq: &[&Field], all_caps: bool) -> Result<String, String>
                         Field::Str(s) => p.write_string(s).is_ok(),
                         Field::Data(d) => p.write_data(d).is_ok(),
                         Field::Raw(r) => p.write_raw(r).is_ok(),
+                        Field::Uuid(u) => p.write_uuid(uuid::Uuid::from_bytes(*u)).is_ok(),
+                        Field::Rest(r) => p.write_rest(r).is_ok(),
                     })
                     .collect();
                 (oks, p.written().to_vec())
@@ -389,6 +401,9 @@ fn check_sequence_caps(seq: &[&Field], all_caps: bool) -> Result<String, String>
                     Field::Str(s) => u.read_string() == Ok(&s[..]),
                     Field::Data(d) => u.read_data(&mut w) == Ok(&d[..]),
                     Field::Raw(r) => u.read_raw(r.len()) == Ok(&r[..]),
+                    Field::Uuid(x) => u.read_uuid() == Ok(uuid::Uuid::from_bytes(*x)),
+                    // (a "rest" that is followed by other fields is read back as raw bytes)
+                    Field::Rest(r) => u.read_raw(r.len()) == Ok(&r[..]),
                 };
                 if !same {
                     return Err(format!("slice capacity {}: write #{} reported success after an earlier one had failed ({:?}), but is not read back", cap, k, oks));
@@ -427,7 +442,7 @@ fn check_sequence_caps(seq: &[&Field], all_caps: bool) -> Result<String, String>
     let mut u = Unpacker::new(&exp);
     let mut w: Vec<Warning> = Vec::new();
     let mut pos = 0usize;
-    for f in seq {
+    for (k, f) in seq.iter().enumerate() {
         if u.num_bytes_read() != pos || u.as_slice() != &exp[pos..] {
             return Err(format!("num_bytes_read/as_slice inconsistent at {}", pos));
         }
@@ -453,6 +468,23 @@ fn check_sequence_caps(seq: &[&Field], all_caps: bool) -> Result<String, String>
             Field::Raw(r) => {
                 if u.read_raw(r.len()) != Ok(&r[..]) {
                     return Err("raw not read back".into());
+                }
+                pos += r.len();
+            }
+            Field::Uuid(x) => {
+                if u.read_uuid() != Ok(uuid::Uuid::from_bytes(*x)) {
+                    return Err("uuid not read back".into());
+                }
+                pos += 16;
+            }
+            Field::Rest(r) => {
+                if k + 1 == seq.len() {
+                    // the last field: `read_rest` returns exactly it and leaves nothing
+                    if u.read_rest() != Ok(&r[..]) {
+                        return Err("rest not read back".into());
+                    }
+                } else if u.read_raw(r.len()) != Ok(&r[..]) {
+                    return Err("rest (followed by other fields) not read back as raw bytes".into());
                 }
                 pos += r.len();
             }
@@ -488,6 +520,8 @@ fn check_sequence_caps(seq: &[&Field], all_caps: bool) -> Result<String, String>
                 Field::Str(_) => u.read_string().is_ok(),
                 Field::Data(_) => u.read_data(&mut w).is_ok(),
                 Field::Raw(r) => u.read_raw(r.len()).is_ok(),
+                Field::Uuid(_) => u.read_uuid().is_ok(),
+                Field::Rest(r) => u.read_raw(r.len()).is_ok(),
             };
             if !ok {
                 failed = true;
@@ -508,7 +542,7 @@ fn check_sequence_caps(seq: &[&Field], all_caps: bool) -> Result<String, String>
             if u.num_bytes_read() > cut {
                 return Err(format!("truncation at {}: all reads succeeded", cut));
             }
-            let ok_by_empty = seq.iter().rev().take_while(|f| matches!(f, Field::Raw(r) if r.is_empty())).count() > 0;
+            let ok_by_empty = seq.iter().rev().take_while(|f| matches!(f, Field::Raw(r) | Field::Rest(r) if r.is_empty())).count() > 0;
             if !ok_by_empty {
                 return Err(format!("truncation at {}: all reads succeeded on a truncated buffer", cut));
             }
@@ -661,7 +695,7 @@ fn main() {
     demo_and_ints(&run);
     run.assume("reference encoder/decoder written from doc/int.md; for non-zero padding bits the documentation prescribes no value, only that the encoding is not canonical (a warning must be raised)");
     run.finish(
-        "all 2^32 integers encoded (length 1..5, byte-equal to the reference encoder, decode back, no warning, nothing left, shortest); every byte string of length 0..3 decoded against the reference decoder, 4/5-byte strings with first and last byte exhaustive and middle bytes from 10 boundary patterns (thorough: every 4-byte string and all 2^36 five-byte encodings); all sequences of <=3 (4) writes over a 14-field alphabet into slice/Vec/ArrayVec of every capacity, read back, every truncation; strings / length-prefixed data / raw bytes of every length 0..300 and on both sides of 8192, 16384, 65536 and 2^20, alone and between two other fields; demo padding; IntUnpacker",
+        "all 2^32 integers encoded (length 1..5, byte-equal to the reference encoder, decode back, no warning, nothing left, shortest); every byte string of length 0..3 decoded against the reference decoder, 4/5-byte strings with first and last byte exhaustive and middle bytes from 10 boundary patterns (thorough: every 4-byte string and all 2^36 five-byte encodings); all sequences of <=3 (4) writes over a 16-field alphabet (integers, strings, length-prefixed data, raw bytes, a UUID, a rest-of-message field) into slice/Vec/ArrayVec of every capacity, read back, every truncation; strings / length-prefixed data / raw bytes of every length 0..300 and on both sides of 8192, 16384, 65536 and 2^20, alone and between two other fields; demo padding; IntUnpacker",
         true,
     );
 }
